@@ -6,6 +6,7 @@ import (
 	"fmt"
 	"io"
 	"mime/multipart"
+	"sort"
 	"strconv"
 
 	"github.com/buildbuildio/pebbles/requests"
@@ -45,7 +46,15 @@ func extractFiles(input *requests.Request) *UploadMap {
 	if input == nil {
 		return uploadMap
 	}
-	for varName, value := range input.Variables {
+	// in name order: the parts of the multipart request are numbered in the order in which the
+	// uploads are found, and a file mapped to several variables is read by the first of them
+	varNames := make([]string, 0, len(input.Variables))
+	for varName := range input.Variables {
+		varNames = append(varNames, varName)
+	}
+	sort.Strings(varNames)
+	for _, varName := range varNames {
+		value := input.Variables[varName]
 		uploadMap.extract(value, varName)
 		// if the value was an upload, set the respective Request variable to null
 		if _, ok := value.(*requests.Upload); ok {
@@ -60,7 +69,13 @@ func (u *UploadMap) extract(value interface{}, path string) {
 	case *requests.Upload: // Upload found
 		u.Add(val, path)
 	case map[string]interface{}:
-		for k, v := range val {
+		keys := make([]string, 0, len(val))
+		for k := range val {
+			keys = append(keys, k)
+		}
+		sort.Strings(keys)
+		for _, k := range keys {
+			v := val[k]
 			u.extract(v, fmt.Sprintf("%s.%s", path, k))
 			// if the value was an upload, set the respective QueryInput variable to null
 			switch v.(type) {
